@@ -62,6 +62,30 @@ def solve_exact(A, b):
     return [M[i][n] for i in range(n)]
 
 
+class Styled:
+    """wraps a pure map `base`: what the operator hands back is a fresh array, ONE reused internal buffer, or a view of internal
+    state (all allowed by the API); the oracle always re-evaluates with the pure `base`"""
+    def __init__(self, base, style):
+        self.base, self.style, self.buf, self.state = base, style, None, None
+
+    def __call__(self, v, *a, **k):
+        raw = self.base(v, *a, **k)
+        out = np.asarray(raw, dtype=float)
+        if out.ndim == 0:
+            return raw                      # scalar v: the `v = new_v` path of the iteration method
+        if self.style == "fresh":
+            return out
+        if self.style == "buffer":
+            if self.buf is None or self.buf.shape != out.shape:
+                self.buf = np.empty_like(out)
+            self.buf[...] = out
+            return self.buf
+        if self.state is None or self.state.shape[0] != out.shape[0] + 2:
+            self.state = np.zeros(out.shape[0] + 2)
+        self.state[1:-1] = out
+        return self.state[1:-1]
+
+
 class Counted:
     def __init__(self, fn):
         self.fn, self.n = fn, 0
@@ -83,7 +107,7 @@ def run_fp(T, v0, tol, max_iter, method):
         except ValueError:
             return 1, [], 0, False, None
     warned = any(issubclass(x.category, RuntimeWarning) and "max_iter attained" in str(x.message) for x in w)
-    vl = [float(x) for x in np.atleast_1d(np.asarray(v, dtype=float))]
+    vl = [float(x) for x in np.array(np.atleast_1d(np.asarray(v, dtype=float)), copy=True)]
     # residual the code itself measured at the last application: max|T(v_k) - v_k| with v = T(v_k) returned
     last = [F(x) for x in np.atleast_1d(Tc.last)] if method == "iteration" else None
     rk = max(abs(F(a) - b) for a, b in zip(vl, last)) if last is not None and len(last) == len(vl) else None
@@ -149,7 +173,7 @@ def run(ctx):
     from quantecon.game_theory.mclennan_tourky import _is_epsilon_nash, _best_response_selection
     thorough = ctx.tier == "thorough"
     rng = ctx.rng
-    ctx.proofs()
+    ctx.proofs(["C15/Props.v", "C04/PropsTie.v"])
 
     # ================================================================ compute_fixed_point, iteration: correspondence
     def mk_affine(A, b):
@@ -197,10 +221,12 @@ def run(ctx):
             b = [0.0] * n; v0 = [float(rng.choice([1, 2, 4, -8, 16])) for _i in range(n)]
             tol = math.ldexp(1.0, -rng.randrange(1, 12)); max_iter = 50
         if rng.random() < 0.03: max_iter = 0
-        T = mk_affine(A, b)
+        style = rng.choice(["fresh", "buffer", "view"])
+        T = Styled(mk_affine(A, b), style)
+        ctx.count("fp_affine:returns=%s" % style)
         code, v, calls, warned, rk = run_fp(T, np.array(v0, dtype=float), tol, max_iter, "iteration")
         cases.append(tup(flist2(A), flist(b), flist(v0), fl(tol), zl(max_iter), tup(zl(code), flist(v), zl(calls), blit(warned))))
-        inp = {"method": "iteration", "map": "affine", "kind": kind, "A": A, "b": b, "v0": v0, "error_tol": tol, "max_iter": max_iter}
+        inp = {"method": "iteration", "map": "affine", "kind": kind, "A": A, "b": b, "v0": v0, "error_tol": tol, "max_iter": max_iter, "returns": style}
         meta.append((inp, (code, v, calls, warned)))
         ctx.case(("fp_iter", kind, A, b, v0, tol, max_iter), nontrivial=(code == 0 and calls >= 2), sample={"call": inp, "impl": [v, calls, warned]})
         ctx.count("fp_iteration:%s:%s" % (kind, "ValueError" if code else ("warned" if warned else "converged")))
@@ -294,12 +320,19 @@ def run(ctx):
                     np.array([rng.randrange(-40, 41) / 8.0 for _i in range(n)])
             if expansive:
                 v0 = np.array([rng.choice([9e-4, 7e-4, 3e-4, 0.3, 0.0009]) for _i in range(n)])
+            Tbase = T
             for method in ("iteration", "imitation_game"):
                 tol = rng.choice([1e-3, 1e-3, 1e-5, 1e-8])
                 max_iter = rng.choice([50, 50, 200, 5, 1])
                 v0c = float(v0[0]) if (n == 1 and rng.random() < 0.5 and method == "iteration" and name in ("half_plus_c", "dbl_cap(expansive)")) else v0.copy()
+                # what the operator returns: a fresh array, one reused buffer, or a view of internal state; the oracle below
+                # evaluates the residual with the PURE map Tbase
+                style = "fresh" if np.isscalar(v0c) else rng.choice(["fresh", "buffer", "buffer", "view"])
+                T = Styled(Tbase, style)
                 code, v, calls, warned, rk = run_fp(T, v0c, tol, max_iter, method)
-                inp = {"method": method, "map": name, "n": n, "v0": v0.tolist(), "error_tol": tol, "max_iter": max_iter}
+                T = Tbase
+                ctx.count("fp_%s:returns=%s%s" % (method, style, ",scalar v" if np.isscalar(v0c) else ""))
+                inp = {"method": method, "map": name, "n": n, "v0": v0.tolist(), "error_tol": tol, "max_iter": max_iter, "returns": style}
                 ctx.case(("fp_other", name, method, v0.tolist(), tol, max_iter), nontrivial=(calls >= 2), sample={"call": inp, "impl": [v, calls, warned]})
                 ctx.count("fp_%s:%s:%s" % (method, name, "warned" if warned else "converged"))
                 if code:
@@ -462,9 +495,14 @@ def run(ctx):
         N = rng.choice([2, 3, 3, 4, 4, 4])
         nums = [rng.randrange(2, 5) for _ in range(N)]
         # generic payoffs (k/997, k in +-5000): integer games with tied entries are degenerate and the solver may cycle on them
-        pm = {(i, j): np.array([[rng.randrange(-5000, 5001) / 997.0 for _c in range(nums[j])] for _r in range(nums[i])])
+        # payoff-range families (the cost shift high + LOW_AVOIDER must make every cost positive whatever the range is)
+        fam = rng.choice(["mixed", "mixed", "positive_large", "positive_large", "negative", "tiny_range", "huge_range", "positive_small"])
+        shift, scale = {"mixed": (0.0, 1.0), "positive_large": (100.0 + rng.randrange(0, 400), 1.0), "negative": (-60.0 - rng.randrange(0, 400), 1.0),
+                        "tiny_range": (rng.choice([0.0, 50.0, -7.0]), 1e-4), "huge_range": (rng.choice([0.0, 3e6, -3e6]), 1e5),
+                        "positive_small": (8.0, 1.0)}[fam]
+        pm = {(i, j): np.array([[shift + scale * rng.randrange(-5000, 5001) / 997.0 for _c in range(nums[j])] for _r in range(nums[i])])
               for i in range(N) for j in range(N) if i != j}
-        games.append((nums, pm, "random"))
+        games.append((nums, pm, "random:" + fam))
     PL_MAX = 2000
     for nums, pm, origin in games:
         N = len(nums)
@@ -485,6 +523,7 @@ def run(ctx):
                      sample={"call": {"nums": nums, "start": list(start)}, "impl": [[x.tolist() for x in NE], bool(res.converged), int(res.num_iter)]})
             ctx.count("polym_lcp_solver:N=%d:%s" % (N, "converged" if res.converged else "not-converged"))
             ctx.count("polym_lcp_solver:runs")
+            ctx.count("polym_lcp_solver:payoffs=%s" % origin)
             if back: ctx.count("polym_lcp_solver:runs-that-backtrack")
             if flips: ctx.count("polym_lcp_solver:backtrack-with-flipped-finishing-pair")
             pl_all.append((2 if flips else 1 if back else 0, nums, start, pm, NE, res))
@@ -501,13 +540,16 @@ def run(ctx):
                 u = [sum(sum(F(pm[(i, j)][a][c]) * prof[j][c] for c in range(nums[j])) for j in range(N) if j != i) for a in range(nums[i])]
                 cur = sum(prof[i][a] * u[a] for a in range(nums[i]))
                 worst = max(worst, max(u) - cur)
-            if worst > Fraction(1, 10**8):
-                ctx.fail("polym_not_nash", "converged=True but the profile is not a Nash equilibrium of the polymatrix game (1e-8)", inp,
+            # stated tolerance: 1e-8 absolute + 1e-12 relative to the largest payoff magnitude (float rounding of the LCP solve)
+            if worst > Fraction(1, 10**8) + Fraction(1, 10**12) * F(max(float(np.max(np.abs(M_))) for M_ in pm.values())):
+                ctx.fail("polym_not_nash", "converged=True but the profile is not a Nash equilibrium of the polymatrix game (1e-8 + 1e-12*max|payoff|)", inp,
                          {"NE": [x.tolist() for x in NE], "max_gain": float(worst)}, None)
     # model correspondence: every run with a flipped finishing pair, then back-tracking runs, then plain runs
     caps = {2: 400 if thorough else 90, 1: 1200 if thorough else 110, 0: 600 if thorough else 50}
     pl_cases, pl_meta = [], []
-    for cls, nums, start, pm, NE, res in pl_all:
+    order = list(range(len(pl_all)))
+    rng.shuffle(order)            # so that the capped classes sample every payoff-range family, not only the corpus
+    for cls, nums, start, pm, NE, res in [pl_all[i_] for i_ in order]:
         if caps[cls] <= 0:
             continue
         caps[cls] -= 1
